@@ -1,1 +1,1 @@
-ALL_BINS := $(B)/asan/bin/c01_array $(B)/asan/bin/c19_date
+ALL_BINS := $(B)/asan/bin/c01_array $(B)/asan/bin/c02_maps $(B)/asan/bin/c08_utf $(B)/asan/bin/c15_codecs $(B)/asan/bin/c16_streams $(B)/asan/bin/c19_date $(B)/asan/bin/c20_solve
